@@ -163,6 +163,14 @@ func c28Seqs(alphabet []string, max int) [][]string {
 }
 
 func streamC28(h *H) {
+	// ---- 0. regression cases of finding C28:match:multi-doublewildcard-short-path (fixed in 8b0fa9a13)
+	if h.Shard == 0 {
+		c28Case(h, "regress", []string{"foo/**/bar/**/x"}, []string{"foo/bar/x", "foo/a/bar/x", "foo/bar/a", "foo", "foo/bar", "/home/user/foo/bar/x"})
+		c28Case(h, "regress", []string{"/foo/**/bar/**/x"}, []string{"/foo/bar/x", "/foo/a/bar/x", "/foo/bar/a", "/foo", "/foo/bar", "/foo/bar/b/x"})
+		c28Case(h, "regress", []string{"a/**/**"}, []string{"a", "a/b", "b/a", "/a"})
+		c28Case(h, "regress", []string{"a/**/b/**/c"}, []string{"a/x/b/c", "a/b/x/c", "a/b/c", "a/b", "a"})
+	}
+
 	// ---- A. small-scope exhaustive: every pattern over 7 part shapes × every path over 3 components
 	shapes := []string{"a", "b", "*", "**", "?", "[ab]", "a*"}
 	comps := []string{"a", "b", "ab"}
